@@ -33,7 +33,17 @@ type Variant struct {
 	Name    string
 	FeeSwap bool
 	Ratio   string
+	// LateIssue: the second fee token is not part of the fixture but issued on the path, with scale 18 or 6.
+	// What a swap mints depends on the scales of the tokens as they are on *this* path; sibling paths (and with
+	// them every discarded branch a node executes: failed transactions, simulations) may have seen other ones.
+	LateIssue bool
 }
+
+// lateModel: the scale the second fee token was issued with on this path (0 = not issued yet).
+type lateModel struct{ scaleB int64 }
+
+func (m *lateModel) Clone() mc.Model { c := *m; return &c }
+func (m *lateModel) Canon() []byte   { return []byte(fmt.Sprint(m.scaleB)) }
 
 type opData struct {
 	kind   string
@@ -54,6 +64,7 @@ type Driver struct {
 	V        Variant
 	evm      *envseam.EVM
 	contract common.Address
+	srv      v1.MsgServer // message server over the keeper copy that carries the swap registry (built once)
 }
 
 func New(v Variant) func() (*mc.Env, mc.Driver) {
@@ -84,7 +95,11 @@ func (d *Driver) Init(e *mc.Env) *mc.State {
 	p.Beacon = "0x00000000000000000000000000000000000000be"
 	must(s.Deliver(e, "fx-params", &v1.MsgUpdateParams{Authority: mc.Authority().String(), Params: p}), "params")
 	must(s.Deliver(e, "fx-issue-a", &v1.MsgIssueToken{Symbol: symA, Name: "A", MinUnit: unitA, Scale: 6, InitialSupply: 7, MaxSupply: 1000, Mintable: true, Owner: mc.Addr("A").String()}), "issue a")
-	must(s.Deliver(e, "fx-issue-b", &v1.MsgIssueToken{Symbol: symB, Name: "B", MinUnit: unitB, Scale: 18, InitialSupply: 5, MaxSupply: 1000, Mintable: true, Owner: mc.Addr("A").String()}), "issue b")
+	if d.V.LateIssue {
+		s.Model = &lateModel{}
+	} else {
+		must(s.Deliver(e, "fx-issue-b", &v1.MsgIssueToken{Symbol: symB, Name: "B", MinUnit: unitB, Scale: 18, InitialSupply: 5, MaxSupply: 1000, Mintable: true, Owner: mc.Addr("A").String()}), "issue b")
+	}
 	must(s.Deliver(e, "fx-deploy", &v1.MsgDeployERC20{Symbol: symA, Name: "A", Scale: 6, MinUnit: unitA, Authority: mc.Authority().String()}), "deploy erc20")
 	tok, err := e.Token.GetToken(s.Ctx, unitA)
 	if err != nil {
@@ -101,6 +116,12 @@ func (d *Driver) Enabled(e *mc.Env, s *mc.State) []mc.Op {
 	var ops []mc.Op
 	add := func(name string, od opData) { ops = append(ops, mc.Op{Name: name, Data: od}) }
 	one, five := sdkmath.NewInt(1), sdkmath.NewInt(5)
+	if d.V.FeeSwap && d.V.LateIssue && s.Model.(*lateModel).scaleB == 0 {
+		add("issue-b(scale=18)", opData{kind: "issue-b", who: "A", amt: sdkmath.NewInt(18)})
+		add("issue-b(scale=6)", opData{kind: "issue-b", who: "A", amt: sdkmath.NewInt(6)})
+		add("issue-lookalike(B,symbol="+unitA+",scale=18)", opData{kind: "lookalike", who: "B"})
+		return ops
+	}
 	if d.V.FeeSwap {
 		e12 := sdkmath.NewIntWithDecimal(1, 12)
 		amts := map[string]sdkmath.Int{"1": one, "1e12-1": e12.SubRaw(1), "1e12": e12, "2.6e12": sdkmath.NewIntWithDecimal(26, 11), "2.5e12": sdkmath.NewIntWithDecimal(25, 11), "1e18+7": sdkmath.NewIntWithDecimal(1, 18).AddRaw(7)}
@@ -200,6 +221,12 @@ func (d *Driver) Apply(e *mc.Env, s *mc.State, op mc.Op) []mc.Finding {
 			fs = append(fs, mc.F("C10/restart-moved-value", "%s: ledgers changed: before %s after %s", op.Name, pre, post))
 		}
 		return fs
+	case "issue-b":
+		out := s.Deliver(e, op.Name, &v1.MsgIssueToken{Symbol: symB, Name: "B", MinUnit: unitB, Scale: uint32(od.amt.Int64()), InitialSupply: 5, MaxSupply: 1000, Mintable: true, Owner: mc.Addr(od.who).String()})
+		if out.OK {
+			s.Model.(*lateModel).scaleB = od.amt.Int64()
+		}
+		return nil
 	case "lookalike":
 		s.Deliver(e, op.Name, &v1.MsgIssueToken{Symbol: unitA, Name: "lookalike", MinUnit: "x" + unitA, Scale: 18, InitialSupply: 1, MaxSupply: 10, Mintable: false, Owner: mc.Addr(od.who).String()})
 		return nil
@@ -302,9 +329,13 @@ func (d *Driver) Apply(e *mc.Env, s *mc.State, op mc.Op) []mc.Finding {
 		return fs
 	case "feeswap", "feeswap-rev":
 		ratio := sdkmath.LegacyMustNewDecFromStr(d.V.Ratio)
-		paidDenom, gotDenom, sIn, sOut := unitB, unitA, int64(18), int64(6)
+		sB := int64(18)
+		if d.V.LateIssue {
+			sB = s.Model.(*lateModel).scaleB
+		}
+		paidDenom, gotDenom, sIn, sOut := unitB, unitA, sB, int64(6)
 		if od.kind == "feeswap-rev" {
-			paidDenom, gotDenom, sIn, sOut = unitA, unitB, 6, 18
+			paidDenom, gotDenom, sIn, sOut = unitA, unitB, 6, sB
 		}
 		if od.rel == "all" {
 			amt = e.Bal(s.Ctx, mc.Addr(od.who), paidDenom)
@@ -322,8 +353,14 @@ func (d *Driver) Apply(e *mc.Env, s *mc.State, op mc.Op) []mc.Finding {
 		if od.router {
 			out = s.Deliver(e, op.Name, msg)
 		} else {
-			reg := v1.SwapRegistry{unitB: v1.SwapParams{MinUnit: unitA, Ratio: ratio}, unitA: v1.SwapParams{MinUnit: unitB, Ratio: ratio}}
-			srv := tokenkeeper.NewMsgServerImpl(e.Token.WithSwapRegistry(reg))
+			// the registry is part of the application's wiring: built once per application instance, like the
+			// keeper it is handed to, and used for every message the instance ever executes
+			if d.srv == nil {
+				regRatio := sdkmath.LegacyMustNewDecFromStr(d.V.Ratio)
+				reg := v1.SwapRegistry{unitB: v1.SwapParams{MinUnit: unitA, Ratio: regRatio}, unitA: v1.SwapParams{MinUnit: unitB, Ratio: regRatio}}
+				d.srv = tokenkeeper.NewMsgServerImpl(e.Token.WithSwapRegistry(reg))
+			}
+			srv := d.srv
 			out = s.DeliverWith(e, op.Name, func(ctx sdk.Context, m sdk.Msg) (proto.Message, error) {
 				return srv.SwapFeeToken(ctx, m.(*v1.MsgSwapFeeToken))
 			}, msg)
